@@ -176,6 +176,35 @@ def near_values(fs: FieldSpec, d: object) -> list:
     return out
 
 
+def type_zero_tree(spec: StructSpec) -> dict | None:
+    """The struct whose every member holds the zero value of its *type* (0, "", false, empty array, ...), whatever the members' declared
+    defaults are: what a default derived from types alone would be.  None when some member has no such value."""
+    out: dict = {}
+    for m in spec.fields:
+        if m.array:
+            out[m.name] = []
+        elif m.kind == "struct":
+            sub = type_zero_tree(m.struct) if m.struct is not None else None
+            if sub is None:
+                return None
+            out[m.name] = sub
+        elif m.ktype in _INTS or m.ktype in ("timedelta_i32", "timedelta_i64", "datetime_i64", "error_code"):
+            out[m.name] = 0
+        elif m.ktype == "float64":
+            out[m.name] = 0.0
+        elif m.ktype == "bool":
+            out[m.name] = False
+        elif m.ktype == "string":
+            out[m.name] = ""
+        elif m.ktype in ("bytes", "records"):
+            out[m.name] = b""
+        elif m.ktype == "uuid":
+            out[m.name] = None
+        else:
+            return None
+    return out
+
+
 def near_default_cells(fs: FieldSpec) -> list[str]:
     if fs.tag is None or fs.array:
         return []
@@ -183,7 +212,9 @@ def near_default_cells(fs: FieldSpec) -> list[str]:
     if fs.kind == "struct":
         if not isinstance(d, dict) or fs.struct is None:
             return []
-        return [f"nds:{m.name}:{k}" for m in fs.struct.fields if m.kind == "prim" and not m.array and m.name in d for k in range(len(near_values(m, d[m.name])))]
+        zero = type_zero_tree(fs.struct)
+        return [f"nds:{m.name}:{k}" for m in fs.struct.fields if m.kind == "prim" and not m.array and m.name in d for k in range(len(near_values(m, d[m.name])))] + \
+            (["ndz"] if zero is not None and not trees_equal(zero, d) else [])
     return [f"nd:{k}" for k in range(len(near_values(fs, d)))]
 
 
@@ -250,6 +281,8 @@ class Gen:
             return None
         if cell.startswith("nd:"):
             return near_values(fs, fs.effective_default())[int(cell[3:])]
+        if cell == "ndz":
+            return type_zero_tree(fs.struct)
         if cell.startswith("nds:"):
             _, member, k = cell.split(":")
             tree = _copy_tree(fs.effective_default())
